@@ -73,7 +73,10 @@ def _case(draw, tier):
             for i, t in enumerate(g["tasks"]):
                 if t["kind"] in graph.PROC_KINDS and draw(st.sampled_from(range(5))) == 0:
                     # rmout: the command exits 0 after removing / moving away its own output directory
-                    bad[str(i)] = draw(st.sampled_from([{"exit": 3}, {"signal": 9}, {"launch": "eagain"}, {"rmout": True}, {"rmout": True}]))
+                    bad[str(i)] = draw(st.sampled_from([{"exit": 3}, {"signal": 9}, {"launch": "eagain"}, {"rmout": True}, {"rmout": True},
+                                                        {"argsdir": True}, {"argsdir": True}]))
+                    if "argsdir" in bad[str(i)] and t["kind"] == "exp":
+                        t["args"] = t.get("args") or ["a", 1]      # the records Conductor cannot write then
                     if "rmout" in bad[str(i)] and draw(st.booleans()):
                         t["args"], t["opts"] = [], []    # nothing to record but the version itself
             s["outcomes"] = bad
@@ -268,7 +271,7 @@ class World:
                 continue
             names = set(os.listdir(d))
             if step["op"] == "run" and key not in self.known and any(
-                    "rmout" in o and self.ids[int(i)] == task for i, o in step.get("outcomes", {}).items()):
+                    o.get("rmout") and self.ids[int(i)] == task for i, o in step.get("outcomes", {}).items()):
                 # the command removed its own output directory while Conductor's tee threads were creating the log files in
                 # it: what is left of the directory is the command's doing; only its existence is demanded of the version
                 self.labels.add("version_of_a_command_that_removed_its_output")
@@ -423,7 +426,9 @@ def _run(case, work):
         rows = w.invariant(i, step, res)
         if op == "run" and not killed:
             exits = [e for e in res.get("events", []) if e["e"] == "exit" and not e.get("foreign")]
-            if any("rmout" in o for o in step["outcomes"].values()):
+            if any("argsdir" in o for o in step["outcomes"].values()):
+                w.labels.add("command_left_directories_named_like_the_records")
+            if any(o.get("rmout") for o in step["outcomes"].values()):
                 w.labels.add("command_removed_its_output_directory")
             if any(e["status"] != 0 for e in exits):
                 w.labels.add("nonzero_exit_not_recorded")
